@@ -21,6 +21,7 @@ import (
 
 type vfC19Case struct {
 	K     string `json:"k"`
+	Cls   string `json:"cls"`
 	S     []int  `json:"s"`
 	T     []int  `json:"t"`
 	Clock int    `json:"clock"`
@@ -97,10 +98,48 @@ func vfC19Guard(f func()) (pan string) {
 
 // ---------------------------------------------------------------- observations
 
-func vfC19Parse(codes []int) vfC19Vec {
-	v := vfC19Vec{"k": "parse", "s": codes, "ok": false, "u": []int{}, "panic": ""}
+// vfC19Parse observes ParseUUID (via "parse").
+func vfC19Parse(codes []int) vfC19Vec { return vfC19ParseVia("parse", codes, nil) }
+
+type vfC19Rec struct {
+	N  int  `json:"n"`
+	ID UUID `json:"id"`
+}
+
+// vfC19ParseVia observes one of the parsing entry points on the string codes:
+//
+//	parse   ParseUUID(s)
+//	text    (&u).UnmarshalText(s)                 with u holding pre (16 bytes) before the call
+//	json    (&u).UnmarshalJSON("\"" + s + "\"")     likewise
+//	jsondec json.Unmarshal(`{"n":1,"id":<s as a JSON string>}`, &rec) into a record that is re-used:
+//	        rec.ID holds pre before the call (a decode loop filling one variable again and again)
+//
+// ok = no error; u = the resulting UUID (the destination after the call).
+func vfC19ParseVia(via string, codes []int, pre []byte) vfC19Vec {
+	v := vfC19Vec{"k": "parse", "via": via, "pre": vfC19Ints(pre), "s": codes, "ok": false, "u": []int{}, "panic": ""}
 	v["panic"] = vfC19Guard(func() {
-		u, err := ParseUUID(vfC19Str(codes))
+		str := vfC19Str(codes)
+		var u UUID
+		copy(u[:], pre)
+		var err error
+		switch via {
+		case "parse":
+			u, err = ParseUUID(str)
+		case "text":
+			err = (&u).UnmarshalText([]byte(str))
+		case "json":
+			err = (&u).UnmarshalJSON([]byte("\"" + str + "\""))
+		case "jsondec":
+			rec := vfC19Rec{N: 7, ID: u}
+			js, merr := json.Marshal(str)
+			if merr != nil {
+				panic(merr)
+			}
+			err = json.Unmarshal([]byte(`{"n":1,"id":`+string(js)+`}`), &rec)
+			u = rec.ID
+		default:
+			panic("vf: unknown via " + via)
+		}
 		if err == nil {
 			v["ok"] = true
 			v["u"] = vfC19Ints(u[:])
@@ -109,8 +148,29 @@ func vfC19Parse(codes []int) vfC19Vec {
 	return v
 }
 
+var vfC19Vias = []string{"parse", "text", "json", "jsondec"}
+
+// destinations that already hold something: all ones, a pattern, a previous UUID
+func vfC19Pre(n int) []byte {
+	p := make([]byte, 16)
+	for i := range p {
+		switch n % 3 {
+		case 0:
+			p[i] = 0xff
+		case 1:
+			p[i] = byte(0xa5 ^ (i * 17))
+		default:
+			p[i] = byte(0x10 + i)
+		}
+	}
+	return p
+}
+
+// vfC19Print: String() and ParseUUID back; MarshalText / json.Marshal and back through
+// UnmarshalText / json.Unmarshal into destinations that already hold another UUID.
 func vfC19Print(b []byte) vfC19Vec {
-	v := vfC19Vec{"k": "print", "u": vfC19Ints(b), "s": []int{}, "backok": false, "back": []int{}, "panic": ""}
+	v := vfC19Vec{"k": "print", "u": vfC19Ints(b), "s": []int{}, "backok": false, "back": []int{},
+		"tbackok": false, "tback": []int{}, "jbackok": false, "jback": []int{}, "panic": ""}
 	v["panic"] = vfC19Guard(func() {
 		u, err := UUIDFromBytes(b)
 		if err != nil {
@@ -122,6 +182,18 @@ func vfC19Print(b []byte) vfC19Vec {
 		if err == nil {
 			v["backok"] = true
 			v["back"] = vfC19Ints(back[:])
+		}
+		var t UUID
+		copy(t[:], vfC19Pre(int(b[0])))
+		if mt, err := u.MarshalText(); err == nil && (&t).UnmarshalText(mt) == nil {
+			v["tbackok"] = true
+			v["tback"] = vfC19Ints(t[:])
+		}
+		rec := vfC19Rec{N: 1}
+		copy(rec.ID[:], vfC19Pre(int(b[1])))
+		if js, err := json.Marshal(vfC19Rec{N: 2, ID: u}); err == nil && json.Unmarshal(js, &rec) == nil {
+			v["jbackok"] = true
+			v["jback"] = vfC19Ints(rec.ID[:])
 		}
 	})
 	return v
@@ -263,6 +335,21 @@ func TestVfC19Cases(t *testing.T) {
 			v := vfC19Parse(append([]int{}, c.S...))
 			v["i"] = i
 			res.put(v)
+			// the other parsing entry points, into destinations that already hold a UUID: all of them
+			// for strings that can be accepted, one (rotating) for the strings that must be refused
+			for n, via := range vfC19Vias[1:] {
+				if c.Cls == "reject" && (i+n)%3 != 0 {
+					continue
+				}
+				for p := 0; p < 3; p++ {
+					if c.Cls == "reject" && p != i%3 {
+						continue
+					}
+					v := vfC19ParseVia(via, append([]int{}, c.S...), vfC19Pre(p))
+					v["i"] = i
+					res.put(v)
+				}
+			}
 		case "v1":
 			v := vfC19V1(c.T, c.Clock, c.Node)
 			v["i"] = i
@@ -391,7 +478,11 @@ func TestVfC19Record(t *testing.T) {
 	for i := 0; i < n; i++ {
 		switch x := rng.Intn(20); {
 		case x < 6:
-			vec.put(vfC19Parse(vfC19RandString(rng)))
+			if rng.Intn(2) == 0 {
+				vec.put(vfC19Parse(vfC19RandString(rng)))
+			} else {
+				vec.put(vfC19ParseVia(vfC19Vias[1+rng.Intn(3)], vfC19RandString(rng), vfC19Pre(rng.Intn(3))))
+			}
 		case x < 9:
 			b := make([]byte, 16)
 			rng.Read(b)
